@@ -113,10 +113,47 @@ def hist(c):
     return out
 
 
+def func(c):
+    """the stand-alone functions and the alias: quantize_real estimating its own statistics, quantize_complex (real and imaginary
+    parts independently, each with its own estimate), RealQuantizer.digitize == quantize"""
+    b = c["b"]; tm = c["tm"]; num = c["num"]
+    ts = c["fwhm"] / (2 * np.sqrt(2 * np.log(2)))
+    re = make_data(c["spec"])
+    im = make_data(dict(c["spec"], seed=c["spec"]["seed"] + 7919, mu=c["spec"]["mu"] * 0.5 + 1.0, sigma=c["spec"]["sigma"] * 3.0))
+    out = dict(fails=[])
+
+    def expect(x):
+        m, sd = stats_of(x, num)
+        n = min(num, len(x))
+        if n > 0 and np.max(x[:n]) == np.min(x[:n]):
+            sd = 0.0
+        return formula(x, tm, ts, b, m, sd)
+    with np.errstate(all="ignore"):
+        if c["via"] == "quantize_real":
+            got = Q.quantize_real(re, target_mean=tm, target_std=ts, num_bits=b, stats_calc_num_samples=num)
+            if not np.array_equal(np.asarray(got), expect(re)):
+                out["fails"].append(["function-formula", "quantize_real without statistics: %d samples differ from clip(round(ts/std*(x-mean)+tm)) with the statistics of the leading %d samples"
+                                     % (int(np.sum(np.asarray(got) != expect(re))), num)])
+        elif c["via"] == "quantize_complex":
+            got = Q.quantize_complex(re + 1j * im, target_mean=tm, target_std=ts, num_bits=b, stats_calc_num_samples=num)
+            gr, gi = np.real(got).astype(int), np.imag(got).astype(int)
+            if not np.array_equal(gr, expect(re)) or not np.array_equal(gi, expect(im)):
+                out["fails"].append(["function-formula", "quantize_complex: real part %d / imaginary part %d samples differ from the independent quantisation of that part with its own statistics"
+                                     % (int(np.sum(gr != expect(re))), int(np.sum(gi != expect(im))))])
+        else:
+            mk = lambda: Q.RealQuantizer(target_mean=tm, target_fwhm=c["fwhm"], num_bits=b, stats_calc_period=1, stats_calc_num_samples=num)
+            a = mk().digitize(re); q = mk().quantize(re)
+            if not np.array_equal(np.asarray(a), np.asarray(q)) or not np.array_equal(np.asarray(a), expect(re)):
+                out["fails"].append(["function-formula", "RealQuantizer.digitize differs from quantize / from the formula (%d samples)" % int(np.sum(np.asarray(a) != expect(re)))])
+    return out
+
+
 def main():
     payload = json.load(sys.stdin)
     if payload["mode"] == "kernel":
         res = [kernel(c) for c in payload["cases"]]
+    elif payload["mode"] == "func":
+        res = [func(c) for c in payload["cases"]]
     else:
         res = [hist(c) for c in payload["cases"]]
     json.dump(res, open(sys.argv[1], "w"))
